@@ -22,13 +22,14 @@ theorem loop_move_root {sr d : FsPath} {ci : Bool} (hsr : sr ≠ []) {σ : State
       moveLoop sr d ci f ((cloneKids e.path e).reverse ++ W) (mvRootSt σ w k' e op np') := by
   subst hdst
   have hop' : alLookup w.dropLast (alInsert (dstOf d w (mvPre sr ci))
-      { e with path := dstOf d w (mvPre sr ci) } (alErase w σ.entries)) = some op := hop
+      { e with path := dstOf d w (mvPre sr ci), rel := movedRel e (dstOf d w (mvPre sr ci)) } (alErase w σ.entries)) = some op := hop
   have hnp' : alLookup (dstOf d w (mvPre sr ci)).dropLast (alInsert w.dropLast (rmName op (baseName w))
-      (alInsert (dstOf d w (mvPre sr ci)) { e with path := dstOf d w (mvPre sr ci) } (alErase w σ.entries))) = some np := hnp
-  rw [moveLoop]
+      (alInsert (dstOf d w (mvPre sr ci)) { e with path := dstOf d w (mvPre sr ci), rel := movedRel e (dstOf d w (mvPre sr ci)) } (alErase w σ.entries))) = some np := hnp
+  rw [moveLoop_succ_cons]
   cases ci <;>
-  · simp only [mvPre, Bool.false_eq_true, if_true, if_false, dirOf_ne hsr, mpure_bind, removeEntry_bind, he,
-      setEntry_bind, removeFile_bind] at hop' hnp' hk' hadd ⊢
+  · simp only [mvPre, Bool.false_eq_true, if_true, if_false] at hk'
+    simp only [mvPre, Bool.false_eq_true, if_true, if_false, dirOf_ne hsr, mpure_bind, removeEntry_bind, he,
+      movedRelM_eq_pure (movedOk_of_ne hk'), setEntry_bind, removeFile_bind] at hop' hnp' hadd ⊢
     cases hb : alLookup w σ.files with
     | none =>
       simp only [mpure_bind, dirOf_ne hw, getEntry_bind, hop', removeChild_eq, hopd, if_true, liftO_ok_bind,
